@@ -121,3 +121,17 @@ def round_position(draw, par, surface):
     kmax = int(179.0 / dlon)
     lon = dlon * (draw(gen.uint(-kmax, kmax)) + draw(frac) / 32.0)
     return lat, lon
+
+
+def tie_longitudes(glon):
+    """reference longitudes (all but) exactly half-way between two of the four surface longitude candidates glon + 90 q"""
+    import math
+    out = []
+    for k in range(4):
+        centre = (glon % 90.0) + 90.0 * k - 45.0
+        for j in (-3, -2, -1, 0, 1, 2, 3):
+            lr = centre
+            for _ in range(abs(j)):
+                lr = math.nextafter(lr, math.inf if j > 0 else -math.inf)
+            out.append(wrap_lon(lr))
+    return out
